@@ -87,7 +87,9 @@ pub fn content_for(ty: &str) -> BoxedStrategy<BTreeMap<String, V>> {
                         c.push(("join_authorised_via_users_server".to_owned(), s(&user(srv, n))));
                     }
                 }
-                if membership == "invite" {
+                // third_party_invite belongs on invites; other memberships sometimes carry it too
+                // (redaction and the required-signer rule must cope with it there as well)
+                if membership == "invite" || reason {
                     if let Some((with_signed, dn, extra)) = tpi {
                         let mut t = BTreeMap::new();
                         t.insert("display_name".to_owned(), s(&dn));
